@@ -167,7 +167,9 @@ def satisfies(sel, ev, stats=None):
     return True
 
 
-def ref_run(sel0, sel, xs, ys, p0, policy=None):
+def ref_run(sel0, sel, xs, ys, p0, policy=None, extra=()):
+    """`extra`: further (unconstrained selector, constrained selector, policy) override handlers
+    activated after the first one (most recently activated non-declining override wins)."""
     """Reference interpreter of the driver `lo(xs, ys); li(p0, ys)` producing the binding
     trace; when `policy` is given, a binding of the focus variable whose event satisfies
     the selector's conditions stores policy(event) instead."""
@@ -177,10 +179,14 @@ def ref_run(sel0, sel, xs, ys, p0, policy=None):
     def bind(act, var, value):
         tr.binds.append(M.Bind(tr.tick(), act, var, value))
         if policy is not None:
-            for ev in M.events_at(sel0, tr, len(tr.binds) - 1):
-                if satisfies(sel, ev):
-                    value = policy(ev)
-                    tr.binds[-1] = tr.binds[-1]._replace(value=value)
+            tentative = value
+            idx = len(tr.binds) - 1
+            for s0, s1, pol in [(sel0, sel, policy)] + list(extra):
+                tr.binds[idx] = tr.binds[idx]._replace(value=tentative)
+                for ev in M.events_at(s0, tr, idx):
+                    if satisfies(s1, ev):
+                        value = pol(ev)
+            tr.binds[idx] = tr.binds[idx]._replace(value=value)
         return value
 
     def li(p, ys_, parent):
@@ -330,12 +336,30 @@ def check_e2e(sel, xs, ys, p0, ov_kind, rec=None):
             policy = lambda ev: 50  # noqa
         else:
             policy = lambda ev: ev[fkey] + 100  # noqa
-        tr2, (o1, o2) = ref_run(sel0, sel, xs, ys, p0, policy)
+        # optionally a second, later-activated conditional override on the same variable
+        extra = []
+        second = None
+        if ov_kind == "fn":
+            lastcall = M.focus_path(sel)[-1]
+            k2 = 1 + (len(xs) % 3)
+            sel_b = G.CallN(lastcall.fn, None, (G.Cap(fcap.name, None, None, ("call", "lt", (("sym", str(k2)),)), "~", 1),), ())
+            pol_b = lambda ev: 70  # noqa
+            extra = [(strip_values(sel_b), sel_b, pol_b)]
+            second = (G.canonical(sel_b), pol_b)
+        tr2, (o1, o2) = ref_run(sel0, sel, xs, ys, p0, policy, extra)
         seen = [ev for g in M.immediate_events(sel0, tr2) for ev in g]
         try:
-            with probing(text0, env=env).values() as plain:
-                with probing(text, env=env, overridable=True) as op:
-                    op.override(policy)
+            from contextlib import ExitStack
+
+            with probing(text0, env=env).values() as plain, ExitStack() as stack:
+                op = probing(text, env=env, overridable=True)
+                op.override(policy)
+                stack.enter_context(op)
+                if second is not None:
+                    op2 = probing(second[0], env=env, overridable=True)
+                    op2.override(second[1])
+                    stack.enter_context(op2)
+                if True:
                     b1 = FL.lo(list(xs), list(ys))
                     b2 = FL.li(p0, list(ys))
         except BaseException as e:
